@@ -96,11 +96,12 @@ func H_C07_sub() {
 	vReach("across-century", ay/100 != by/100)
 }
 
-// (not registered: the VC that ties the fresh civil date of the result back to the expected ordinal is not
-// decided by any back end within the caps; see DESIGN.md section 7/C07)
+// Add: decided since the engine keeps the civil-date provenance through AddDate, bounds the witness year from
+// the ordinal's signed range and lifts the int32 packing of the year (DESIGN.md section 7/C07).
 //
-//verif:pending C07
+//verif:harness C07 quick
 func H_C07_add() {
+	vNoOutcomeMerge() // FromTime's zero-time return stays a path of its own
 	a, ay, am, ad := symDate("a", 0, 9999)
 	yy, mm, dd := vInt("yy"), vInt("mm"), vInt("dd")
 	vAssume(yy >= -100 && yy <= 100 && mm >= -1200 && mm <= 1200 && dd >= -40000 && dd <= 40000)
@@ -118,8 +119,9 @@ func H_C07_add() {
 	vReach("negative-days", dd < 0)
 }
 
-//verif:pending C07
+//verif:harness C07 quick
 func H_C07_addDuration() {
+	vNoOutcomeMerge()
 	a, ay, am, ad := symDate("a", 0, 9999)
 	k := vInt("k")
 	eps := vI64("eps")
@@ -131,12 +133,18 @@ func H_C07_addDuration() {
 	vReach("backwards", k < 0)
 }
 
-//verif:pending C07
-func HT_C07_daysBetween() {
-	a, ay, am, ad := symDate("a", 1900, 2100)
-	b, by, bm, bd := symDate("b", 1900, 2100)
+// DaysBetween goes through float64 (Hours()/24); the engine cuts the float quotient out as a lemma of its own
+// (fpQuotientCut: both the lemma and the operand range are discharged by the solver).
+//
+//verif:harness C07 quick
+func H_C07_daysBetween() {
+	a, ay, am, ad := symDate("a", 0, 9999)
+	b, by, bm, bd := symDate("b", 0, 9999)
 	delta := refOrdinalJ(ay, am, ad) - refOrdinalJ(by, bm, bd)
+	vAssume(delta >= -106751 && delta <= 106751) // time.Duration's range
 	vAssert("days-between", a.DaysBetween(b) == delta)
+	vReach("across-year-zero", ay == 0 && by > 0)
+	vReach("negative", delta < 0)
 }
 
 //verif:harness C07 quick
